@@ -325,6 +325,9 @@ def run_cbmc_stage(repo, unit, g, res, wd, below_variadic, t_all, extra_opts):
         return res
     results = None
     warnings = []
+    if 'Solver ran out of memory' in so or 'Out of memory' in se:
+        res['detail'] = 'solver ran out of memory (ulimit -v %d kB)' % MEM_KB
+        return res
     for e in d:
         if not isinstance(e, dict):
             continue
@@ -396,8 +399,26 @@ def run_cbmc_stage(repo, unit, g, res, wd, below_variadic, t_all, extra_opts):
         res['detail'] = 'no postcondition obligation generated'
         return res
     if res.get('spec_error'):
-        res['status'] = 'error'
-        return res
+        # failures inside specification / stub code are a defect of the specification — unless real code fails a
+        # built-in check as well (e.g. a NULL pointer handed to a stub by the code under verification): then the
+        # failures in the stubs are consequences and the run is a violation
+        real = [o for o in res['failed'] if o['status'] == 'FAILURE' and '.unwind.' not in o['id'] and
+                not re.match(r'(spec_|pre_|post_|H_|stub_|h_|vs_|vn_)', o['function'] or 'h_') and
+                not re.search(r'\.(assertion|postcondition|precondition)\.', o['id'])]
+        # an unwinding-assertion failure only invalidates successes (paths beyond the bound are cut after it): failures of
+        # postconditions / assertions / built-in checks found within the bound are genuine and are reported
+        within = [o for o in res['failed'] if o['status'] == 'FAILURE' and '.unwind.' not in o['id'] and
+                  CANARY_TAG not in o['description'] and
+                  (re.search(r'\.(assertion|postcondition)\.', o['id']) and re.match(r'(h_|[a-z])', o['function'] or 'h_'))]
+        only_unwind_or_spec = not real and not (within and any('.unwind.' in o['id'] for o in res['failed']) and
+                                                 not any(re.match(r'(spec_|pre_|post_|H_|stub_|vs_|vn_)', o['function'] or '') and
+                                                         '.unwind.' not in o['id'] and not re.search(r'\.(assertion|postcondition|precondition)\.', o['id'])
+                                                         for o in res['failed'] if o['status'] == 'FAILURE'))
+        if only_unwind_or_spec:
+            res['status'] = 'error'
+            return res
+        res['failed'] = [o for o in res['failed'] if '.unwind.' not in o['id']]
+        res['detail'] = ''
     res['status'] = 'failed' if any(o['status'] == 'FAILURE' for o in res['failed']) else ('ok' if not res['failed'] else 'error')
     if res['status'] == 'error':
         res['detail'] = 'obligations neither proved nor refuted: ' + ', '.join(o['id'] for o in res['failed'][:5])
